@@ -72,6 +72,9 @@ func rotOf(call *ssa.Call) (int, ssa.Value, bool) {
 	return int(a), call.Call.Args[0], true
 }
 
+// canonSubst: parameter substitutions of helpers being expanded by canon.
+var canonSubst []map[ssa.Value]string
+
 // canon renders the expression tree of v in a canonical form: commutative
 // operands sorted, rotates recognised, loads and phis abstracted.
 func canon(v ssa.Value, depth int) string {
@@ -103,6 +106,20 @@ func canon(v ssa.Value, depth int) string {
 		if b, ok := x.Call.Value.(*ssa.Builtin); ok {
 			return b.Name()
 		}
+		// a pure straight-line helper of the module (e.g. a "round" function): its result
+		// expression with the arguments substituted
+		if f := staticCallee(x); inModule(f) && len(f.Blocks) == 1 && len(f.Params) == len(x.Call.Args) && pureCallee(f) {
+			if ret, ok := f.Blocks[0].Instrs[len(f.Blocks[0].Instrs)-1].(*ssa.Return); ok && len(ret.Results) == 1 {
+				env := map[ssa.Value]string{}
+				for i, prm := range f.Params {
+					env[prm] = canon(x.Call.Args[i], depth+1)
+				}
+				canonSubst = append(canonSubst, env)
+				r := canon(ret.Results[0], depth+1)
+				canonSubst = canonSubst[:len(canonSubst)-1]
+				return r
+			}
+		}
 		return "call"
 	case *ssa.Convert:
 		inner := canon(x.X, depth+1)
@@ -127,6 +144,11 @@ func canon(v ssa.Value, depth int) string {
 		}
 		return x.Op.String() + canon(x.X, depth+1)
 	case *ssa.Parameter:
+		if n := len(canonSubst); n > 0 {
+			if e, ok := canonSubst[n-1][x]; ok {
+				return e
+			}
+		}
 		return "p"
 	case *ssa.Extract:
 		return "x"
